@@ -15,13 +15,14 @@ from common import Ctx, Failure, main_wrapper
 PID = "C06"
 RULE = ("Hypothesis-generated histories of 2..12 steps executed in ONE process per build (thread-safe and non-thread-safe): "
         "execv/execve with generated path and argv (NULL, {NULL}, 1..5000 entries, empty strings, spaces/control bytes/"
-        "newlines, totals around and far above the data-source limit), calls from a second thread (ts build), and changes "
+        "newlines, totals around and far above the data-source limit, limits from 255 to 100000, i.e. also paths beyond PATH_MAX), calls from a second thread (ts build), and changes "
         "of datasource_message_max_length, removal of the working directory; format '[%{cwd}<0x1f>]%{filename}<0x1f>%{cmdline}' (the cwd field, which fails once the directory is gone, must be identical for all calls made in the same directory), each record read as the byte content the "
         "call added. non-trivial = history with (long call followed by a shorter one) OR (non-NULL argv followed by "
         "NULL/empty argv) OR (execv/execve alternation); distinct by the sequence of step shapes")
 
 SEP = b"\x1f"
-LIMS = [255, 256, 300, 2047, 4096]
+# (limits above PATH_MAX too: a path is an ordinary string to the library, and paths longer than 4096 bytes are logged before the kernel rejects them)
+LIMS = [255, 256, 300, 2047, 4096, 4097, 16384, 100000]
 
 
 def strategy():
